@@ -1,14 +1,331 @@
 import StorageModel.C16.Model
 /-
-  C16 — helper lemmas: equations for transaction bodies, the ghost "flag at creation", the
-  abstraction to the spec.
+  C16 — helper lemmas: equations for transaction bodies and for each operation, the batch delete
+  behind cascade / DeleteWhere, the ghost "flag at creation", the abstraction to the spec.
 -/
+set_option linter.unusedSectionVars false
+set_option linter.unusedSimpArgs false
+set_option linter.unnecessarySimpa false
+
 namespace StorageModel.C16
+
+/-! ### maps -/
+
+namespace Map
+variable {κ ν : Type} [DecidableEq κ]
+
+theorem delAll_nil (m : Map κ ν) : delAll m [] = m := by
+  unfold delAll
+  induction m with
+  | nil => rfl
+  | cons p m ih => simp [List.filter]
+
+theorem delAll_cons (m : Map κ ν) (k : κ) (ks : List κ) : delAll m (k :: ks) = delAll (del m k) ks := by
+  unfold delAll del
+  induction m with
+  | nil => rfl
+  | cons p m ih =>
+    by_cases h : p.1 = k
+    · simp [List.filter, h]
+      simpa [List.filter] using ih
+    · by_cases h2 : p.1 ∈ ks
+      · simp [List.filter, h, h2]
+        simpa [List.filter] using ih
+      · simp [List.filter, h, h2]
+        simpa [List.filter] using ih
+
+theorem get_delAll (m : Map κ ν) (ks : List κ) (k : κ) :
+    get (delAll m ks) k = if k ∈ ks then none else get m k := by
+  induction ks generalizing m with
+  | nil => simp [delAll_nil]
+  | cons a ks ih =>
+    rw [delAll_cons, ih, get_del]
+    by_cases h1 : k ∈ ks
+    · simp [h1]
+    · by_cases h2 : a = k
+      · simp [h2]
+      · have : ¬ k = a := fun h => h2 h.symm
+        simp [h1, h2, this]
+
+theorem get_some_mem {m : Map κ ν} {k : κ} {v : ν} (h : get m k = some v) : (k, v) ∈ m := by
+  induction m with
+  | nil => simp [get] at h
+  | cons p m ih =>
+    obtain ⟨a, w⟩ := p
+    by_cases ha : a = k
+    · simp [get, ha] at h; simp [ha, h]
+    · simp only [get, ha, if_false] at h
+      exact List.mem_cons_of_mem _ (ih h)
+
+theorem mem_del {m : Map κ ν} {k : κ} {p : κ × ν} (h : p ∈ del m k) : p ∈ m := by
+  unfold del at h; exact (List.mem_filter.mp h).1
+
+theorem mem_delAll {m : Map κ ν} {ks : List κ} {p : κ × ν} (h : p ∈ delAll m ks) : p ∈ m := by
+  unfold delAll at h; exact (List.mem_filter.mp h).1
+
+theorem mem_put {m : Map κ ν} {k : κ} {v : ν} {p : κ × ν} (h : p ∈ put m k v) : p = (k, v) ∨ p ∈ m := by
+  unfold put at h
+  rcases List.mem_cons.mp h with h | h
+  · exact Or.inl h
+  · exact Or.inr (mem_del h)
+
+end Map
+
+theorem mem_insertKey {κ : Type} [KeyOrd κ] (x y : κ) (l : List κ) : y ∈ insertKey x l ↔ y = x ∨ y ∈ l := by
+  induction l with
+  | nil => simp [insertKey]
+  | cons a l ih =>
+    unfold insertKey
+    split
+    · simp
+    · simp only [List.mem_cons, ih]
+      constructor
+      · rintro (h | h | h)
+        · exact Or.inr (Or.inl h)
+        · exact Or.inl h
+        · exact Or.inr (Or.inr h)
+      · rintro (h | h | h)
+        · exact Or.inr (Or.inl h)
+        · exact Or.inl h
+        · exact Or.inr (Or.inr h)
+
+/-- sorting neither loses nor invents an id -/
+theorem mem_sortKeys {κ : Type} [KeyOrd κ] (y : κ) (l : List κ) : y ∈ sortKeys l ↔ y ∈ l := by
+  induction l with
+  | nil => simp [sortKeys]
+  | cons a l ih => simp [sortKeys, mem_insertKey, ih]
 
 section
 variable {K N T : Type} [DecidableEq K]
 
 /-! ### equations -/
+
+theorem refused_eq (s : St K N T) (id : K) (sys : Bool) :
+    refused s id sys = match s.ents.get id with
+      | some e => e.isSystem && !sys
+      | none => false := rfl
+
+theorem refused_sys (s : St K N T) (id : K) : refused s id true = false := by
+  unfold refused; cases s.ents.get id <;> simp
+
+theorem refused_of_get {s : St K N T} {id : K} {e : Ent K N T} (h : s.ents.get id = some e) (sys : Bool) :
+    refused s id sys = (e.isSystem && !sys) := by
+  rw [refused_eq, h]
+
+theorem refused_of_none {s : St K N T} {id : K} (h : s.ents.get id = none) (sys : Bool) :
+    refused s id sys = false := by
+  rw [refused_eq, h]
+
+@[simp] theorem putEnt_ents (s : St K N T) (id : K) (e : Ent K N T) : (s.putEnt id e).ents = s.ents.put id e := rfl
+@[simp] theorem putEnt_owners (s : St K N T) (id : K) (e : Ent K N T) : (s.putEnt id e).owners = s.owners := rfl
+@[simp] theorem delEnt_ents (s : St K N T) (id : K) : (s.delEnt id).ents = s.ents.del id := rfl
+@[simp] theorem delEnt_owners (s : St K N T) (id : K) : (s.delEnt id).owners = s.owners := rfl
+
+/-! ### what the persist step writes -/
+
+theorem persist_update_flag (v : Vals K N T) (sn st so : Bool) (e : Ent K N T) :
+    (persist false v sn st so e).flag = e.flag := by
+  unfold persist setBaseValues updateBaseValues
+  cases sn <;> cases so <;> simp
+
+theorem persist_update_level (v : Vals K N T) (sn st so : Bool) (e : Ent K N T) :
+    (persist false v sn st so e).level = e.level := by
+  unfold persist setBaseValues updateBaseValues
+  cases sn <;> cases so <;> simp
+
+theorem persist_update_peers (v : Vals K N T) (sn st so : Bool) (e : Ent K N T) :
+    (persist false v sn st so e).peers = e.peers := by
+  unfold persist setBaseValues updateBaseValues
+  cases sn <;> cases so <;> simp
+
+/-- **`UpdateBaseValues` never writes the flag**, whatever the entity carries (IsSystem, Migrate,
+    timestamps, tags, owner) and whatever the checker lets through — through S or through the child store -/
+theorem updEnt_flag (v : Vals K N T) (sn st so : Bool) (lvl : Option (Bool × N)) (e : Ent K N T) :
+    (updEnt v sn st so lvl e).flag = e.flag := by
+  unfold updEnt
+  rcases lvl with _ | ⟨b, l⟩
+  · exact persist_update_flag ..
+  · cases b
+    · exact persist_update_flag ..
+    · simp only; exact persist_update_flag ..
+
+theorem updEnt_isSystem (v : Vals K N T) (sn st so : Bool) (lvl : Option (Bool × N)) (e : Ent K N T) :
+    (updEnt v sn st so lvl e).isSystem = e.isSystem := by
+  unfold Ent.isSystem; rw [updEnt_flag]
+
+theorem updEnt_peers (v : Vals K N T) (sn st so : Bool) (lvl : Option (Bool × N)) (e : Ent K N T) :
+    (updEnt v sn st so lvl e).peers = e.peers := by
+  unfold updEnt
+  rcases lvl with _ | ⟨b, l⟩
+  · exact persist_update_peers ..
+  · cases b
+    · exact persist_update_peers ..
+    · simp only; exact persist_update_peers ..
+
+theorem persist_create_flag (v : Vals K N T) (e : Ent K N T) :
+    (persist true v true true true e).flag = if v.flag then some true else e.flag := by
+  unfold persist setBaseValues createBaseValues
+  cases hf : v.flag <;> cases hm : v.migrate <;> simp
+
+/-- `CreateBaseValues` writes the key only when the entity carries the flag: re-run on an existing
+    bucket (child-store create over an existing parent) it can set the flag, never clear it -/
+theorem mkEnt_flag (v : Vals K N T) (lvl : Option N) (e : Ent K N T) :
+    (mkEnt v lvl e).flag = if v.flag then some true else e.flag := by
+  unfold mkEnt
+  cases lvl <;> simp only <;> exact persist_create_flag v e
+
+theorem mkEnt_isSystem (v : Vals K N T) (lvl : Option N) (e : Ent K N T) :
+    (mkEnt v lvl e).isSystem = (v.flag || e.isSystem) := by
+  unfold Ent.isSystem; rw [mkEnt_flag]
+  cases v.flag <;> simp
+
+theorem blankEnt_isSystem (n : N) : (blankEnt n : Ent K N T).isSystem = false := rfl
+
+theorem unlinkEnt_isSystem (o : K) (e : Ent K N T) : (unlinkEnt o e).isSystem = e.isSystem := rfl
+
+theorem get_unlinkAll (m : Map K (Ent K N T)) (o k : K) :
+    (unlinkAll m o).get k = (m.get k).map (unlinkEnt o) := by
+  induction m with
+  | nil => rfl
+  | cons p m ih =>
+    obtain ⟨a, e⟩ := p
+    unfold unlinkAll at ih ⊢
+    by_cases h : a = k
+    · simp [Map.get, h]
+    · simp only [List.map_cons, Map.get, h, if_false]; exact ih
+
+/-! ### the batch delete behind the cascade and `DeleteWhere` -/
+
+theorem delMany_nil (sys : Bool) (s : St K N T) : delMany sys s [] = (s, none) := rfl
+
+theorem delMany_cons (sys : Bool) (s : St K N T) (id : K) (ids : List K) :
+    delMany sys s (id :: ids) =
+      if refused s id sys then (s, some .sysDelete) else delMany sys (s.delEnt id) ids := rfl
+
+theorem refused_delEnt {s : St K N T} {id : K} {sys : Bool} (h : refused s id sys = false) (y : K) :
+    refused (s.delEnt id) y sys = refused s y sys := by
+  rw [refused_eq, refused_eq, delEnt_ents, Map.get_del]
+  by_cases hy : id = y
+  · subst hy
+    rw [refused_eq] at h
+    simp only [if_true]
+    cases hg : s.ents.get id with
+    | none => rfl
+    | some e => rw [hg] at h; exact h.symm
+  · simp [hy]
+
+theorem refused_delEnt_fun {s : St K N T} {id : K} {sys : Bool} (h : refused s id sys = false) :
+    (fun y => refused (s.delEnt id) y sys) = (fun y => refused s y sys) := funext (refused_delEnt h)
+
+/-- the batch fails iff it contains an entity the context may not delete … -/
+theorem delMany_err (sys : Bool) (s : St K N T) (ids : List K) :
+    (delMany sys s ids).2 = if ids.any (fun y => refused s y sys) then some .sysDelete else none := by
+  induction ids generalizing s with
+  | nil => rfl
+  | cons id ids ih =>
+    rw [delMany_cons]
+    cases h : refused s id sys with
+    | true => simp [h]
+    | false =>
+      simp only [Bool.false_eq_true, if_false, List.any_cons, h, Bool.false_or]
+      rw [ih, refused_delEnt_fun h]
+
+/-- … and otherwise removes exactly the listed entities (and touches nothing else) -/
+theorem delMany_ok (sys : Bool) (s : St K N T) (ids : List K) (h : ids.any (fun y => refused s y sys) = false) :
+    (delMany sys s ids).1 = { s with ents := s.ents.delAll ids } := by
+  induction ids generalizing s with
+  | nil => simp [delMany_nil, Map.delAll_nil]
+  | cons id ids ih =>
+    rw [delMany_cons]
+    simp only [List.any_cons, Bool.or_eq_false_iff] at h
+    obtain ⟨h1, h2⟩ := h
+    simp only [h1, Bool.false_eq_true, if_false]
+    rw [ih, Map.delAll_cons]
+    · rfl
+    · rw [refused_delEnt_fun h1]; exact h2
+
+theorem delMany_owners (sys : Bool) (s : St K N T) (ids : List K) : (delMany sys s ids).1.owners = s.owners := by
+  induction ids generalizing s with
+  | nil => rfl
+  | cons id ids ih =>
+    rw [delMany_cons]
+    split
+    · rfl
+    · rw [ih]; rfl
+
+/-- a system context is never refused -/
+theorem delMany_sys (s : St K N T) (ids : List K) : (delMany true s ids).2 = none := by
+  rw [delMany_err]
+  have : ids.any (fun y => refused s y true) = false := by
+    induction ids with
+    | nil => rfl
+    | cons a l _ => simp [refused_sys]
+  simp [this]
+
+/-- **whatever an ordinary context deletes in a batch — even in the partial state a refused batch
+    leaves behind — no system entity is among it** -/
+theorem delMany_keeps_system (s : St K N T) (ids : List K) {x : K} {e : Ent K N T}
+    (hg : s.ents.get x = some e) (hs : e.isSystem = true) :
+    (delMany false s ids).1.ents.get x = some e := by
+  induction ids generalizing s with
+  | nil => exact hg
+  | cons id ids ih =>
+    rw [delMany_cons]
+    cases h : refused s id false with
+    | true => simpa using hg
+    | false =>
+      simp only [Bool.false_eq_true, if_false]
+      apply ih
+      rw [delEnt_ents, Map.get_del]
+      have : id ≠ x := by
+        intro hx; subst hx
+        rw [refused_of_get hg, hs] at h; simp at h
+      simp [this, hg]
+
+/-- a batch only ever removes entities: what is still there is what was there -/
+theorem delMany_get (sys : Bool) (s : St K N T) (ids : List K) (x : K) :
+    (delMany sys s ids).1.ents.get x = none ∨ (delMany sys s ids).1.ents.get x = s.ents.get x := by
+  induction ids generalizing s with
+  | nil => exact Or.inr rfl
+  | cons id ids ih =>
+    rw [delMany_cons]
+    split
+    · exact Or.inr rfl
+    · rcases ih (s.delEnt id) with h | h
+      · exact Or.inl h
+      · rw [h, delEnt_ents, Map.get_del]
+        by_cases hx : id = x
+        · simp [hx]
+        · simp [hx]
+
+/-- on entities none of which is a system entity the context does not matter -/
+theorem delMany_ctx_irrelevant (s : St K N T) (ids : List K)
+    (h : ∀ y ∈ ids, ∀ e, s.ents.get y = some e → e.isSystem = false) (c1 c2 : Bool) :
+    delMany c1 s ids = delMany c2 s ids := by
+  induction ids generalizing s with
+  | nil => rfl
+  | cons id ids ih =>
+    have hr : ∀ c, refused s id c = false := by
+      intro c
+      cases hg : s.ents.get id with
+      | none => exact refused_of_none hg c
+      | some e => rw [refused_of_get hg, h id (List.mem_cons_self ..) e hg]; rfl
+    rw [delMany_cons, delMany_cons, hr c1, hr c2]
+    simp only [Bool.false_eq_true, if_false]
+    apply ih
+    intro y hy e he
+    rw [delEnt_ents, Map.get_del] at he
+    by_cases hx : id = y
+    · simp [hx] at he
+    · simp only [hx, if_false] at he
+      exact h y (List.mem_cons_of_mem _ hy) e he
+
+end
+
+section
+variable {K N T : Type} [DecidableEq K] [DecidableEq N] [KeyOrd K]
+
+/-! ### transaction bodies -/
 
 theorem runOps_nil (k : Bool) (s : St K N T) : runOps k s [] = (s, false) := rfl
 
@@ -19,7 +336,7 @@ theorem runOps_cons_ok {k : Bool} {s : St K N T} {op : Op K N T} {ops : List (Op
 theorem runOps_cons_err {k : Bool} {s : St K N T} {op : Op K N T} {ops : List (Op K N T)} {e : Err}
     (h : (step s op).err = some e) :
     runOps k s (op :: ops) =
-      if k && e ≠ .sysCreate then runOps k (step s op).st ops else ((step s op).st, true) := by
+      if k && e.ignorable then runOps k (step s op).st ops else ((step s op).st, true) := by
   simp only [runOps, h]
 
 theorem commitTx_failed {s : St K N T} {k : Bool} {ops : List (Op K N T)} (h : (runOps k s ops).2 = true) :
@@ -30,116 +347,265 @@ theorem commitTx_ok {s : St K N T} {k : Bool} {ops : List (Op K N T)} (h : (runO
     commitTx s (k, ops) = (runOps k s ops).1 := by
   simp [commitTx, h]
 
-theorem refused_eq (s : St K N T) (id : K) (sys : Bool) :
-    refused s id sys = match s.get id with
-      | some e => e.isSystem && !sys
-      | none => false := rfl
-
-theorem refused_sys (s : St K N T) (id : K) : refused s id true = false := by
-  unfold refused; cases s.get id <;> simp
-
 /-! ### the operations, case by case -/
 
-/-- the entity bucket a successful (or refused) `Create` writes -/
-def newEnt (v : Vals N T) : Ent N T := persist true v true true (blankEnt v.name)
+theorem createOn_eq (s : St K N T) (sys : Bool) (id : K) (v : Vals K N T) (lvl : Option N) (e0 : Ent K N T) :
+    createOn s sys id v lvl e0 =
+      if !ownerOk s v.owner then { st := s.putEnt id (mkEnt v lvl e0), err := some .noOwner }
+      else if (v.flag || e0.isSystem) && !sys then { st := s.putEnt id (mkEnt v lvl e0), err := some .sysCreate }
+      else { st := s.putEnt id (mkEnt v lvl e0) } := by
+  have hr : refused (s.putEnt id (mkEnt v lvl e0)) id sys = ((v.flag || e0.isSystem) && !sys) := by
+    rw [refused_eq, putEnt_ents, Map.get_put]; simp only [if_true]; rw [mkEnt_isSystem]
+  unfold createOn
+  simp only [hr]
 
-theorem newEnt_isSystem (v : Vals N T) : (newEnt v : Ent N T).isSystem = v.flag := by
-  unfold newEnt persist setBaseValues createBaseValues blankEnt
-  cases hf : v.flag <;> cases hm : v.migrate <;> simp [Ent.isSystem]
+theorem updateOn_eq {s : St K N T} {id : K} {e : Ent K N T} (hg : s.ents.get id = some e) (sys : Bool)
+    (v : Vals K N T) (sn st so : Bool) (lvl : Option (Bool × N)) :
+    updateOn s sys id v sn st so lvl e =
+      if e.isSystem && !sys then { st := s, err := some .sysUpdate }
+      else if decide ((updEnt v sn st so lvl e).owner ≠ e.owner) && !ownerOk s (updEnt v sn st so lvl e).owner then
+        { st := s.putEnt id (updEnt v sn st so lvl e), err := some .noOwner }
+      else { st := s.putEnt id (updEnt v sn st so lvl e) } := by
+  unfold updateOn
+  rw [refused_of_get hg]
 
-/-- **`UpdateBaseValues` never writes the flag**, whatever the entity carries (IsSystem, Migrate,
-    timestamps, tags) and whatever the checker lets through -/
-theorem persist_update_flag (v : Vals N T) (sn st : Bool) (e : Ent N T) : (persist false v sn st e).flag = e.flag := by
-  unfold persist setBaseValues updateBaseValues
-  cases sn <;> simp
+theorem deleteOne_missing {s : St K N T} {id : K} (hg : s.ents.get id = none) (sys : Bool) :
+    deleteOne s sys id = { st := s, err := some .notFound } := by
+  simp [deleteOne, hg]
 
-theorem persist_update_isSystem (v : Vals N T) (sn st : Bool) (e : Ent N T) :
-    (persist false v sn st e).isSystem = e.isSystem := by
-  unfold Ent.isSystem; rw [persist_update_flag]
+theorem deleteOne_found {s : St K N T} {id : K} {e : Ent K N T} (hg : s.ents.get id = some e) (sys : Bool) :
+    deleteOne s sys id =
+      if e.isSystem && !sys then { st := s, err := some .sysDelete } else { st := s.delEnt id } := by
+  simp only [deleteOne, hg, refused_of_get hg]
 
-theorem step_create_blank (s : St K N T) (sys : Bool) (id : K) (v : Vals N T) :
+theorem step_create_blank (s : St K N T) (sys : Bool) (id : K) (v : Vals K N T) :
     step s (.create sys id true v) = { st := s, err := some .blank } := by
   simp [step]
 
-theorem step_create_exists {s : St K N T} {id : K} {e : Ent N T} (hg : s.get id = some e) (sys : Bool) (v : Vals N T) :
-    step s (.create sys id false v) = { st := s, err := some .exists } := by
+theorem step_create_exists {s : St K N T} {id : K} {e : Ent K N T} (hg : s.ents.get id = some e) (sys : Bool)
+    (v : Vals K N T) : step s (.create sys id false v) = { st := s, err := some .exists } := by
   simp [step, hg]
 
-theorem step_create_new {s : St K N T} {id : K} (hg : s.get id = none) (sys : Bool) (v : Vals N T) :
-    step s (.create sys id false v) =
-      if v.flag && !sys then { st := s.put id (newEnt v), err := some .sysCreate }
-      else { st := s.put id (newEnt v) } := by
-  have hr : refused (s.put id (newEnt v)) id sys = (v.flag && !sys) := by
-    rw [refused_eq, Map.get_put]; simp only [if_true]; rw [newEnt_isSystem]
-  simp only [step, hg, Bool.false_eq_true, if_false]
-  unfold newEnt at hr ⊢
-  rw [hr]
-
-theorem step_update_missing {s : St K N T} {id : K} (hg : s.get id = none) (sys : Bool) (v : Vals N T) (sn st : Bool) :
-    step s (.update sys id v sn st) = { st := s, err := some .notFound } := by
+theorem step_create_new {s : St K N T} {id : K} (hg : s.ents.get id = none) (sys : Bool) (v : Vals K N T) :
+    step s (.create sys id false v) = createOn s sys id v none (blankEnt v.name) := by
   simp [step, hg]
 
-theorem step_update_found {s : St K N T} {id : K} {e : Ent N T} (hg : s.get id = some e) (sys : Bool) (v : Vals N T)
-    (sn st : Bool) :
-    step s (.update sys id v sn st) =
-      if e.isSystem && !sys then { st := s, err := some .sysUpdate }
-      else { st := s.put id (persist false v sn st e) } := by
-  have hr : refused s id sys = (e.isSystem && !sys) := by rw [refused_eq, hg]
-  simp only [step, hg]; rw [hr]
+theorem step_ccreate_blank (s : St K N T) (sys : Bool) (id : K) (v : Vals K N T) (lvl : N) :
+    step s (.ccreate sys id true v lvl) = { st := s, err := some .blank } := by
+  simp [step]
 
-theorem step_delete_missing {s : St K N T} {id : K} (hg : s.get id = none) (sys : Bool) :
-    step s (.delete sys id) = { st := s, err := some .notFound } := by
+theorem step_ccreate_new {s : St K N T} {id : K} (hg : s.ents.get id = none) (sys : Bool) (v : Vals K N T) (lvl : N) :
+    step s (.ccreate sys id false v lvl) = createOn s sys id v (some lvl) (blankEnt v.name) := by
   simp [step, hg]
 
-theorem step_delete_found {s : St K N T} {id : K} {e : Ent N T} (hg : s.get id = some e) (sys : Bool) :
-    step s (.delete sys id) =
-      if e.isSystem && !sys then { st := s, err := some .sysDelete } else { st := s.del id } := by
-  have hr : refused s id sys = (e.isSystem && !sys) := by rw [refused_eq, hg]
-  simp only [step, hg]; rw [hr]
+theorem step_ccreate_found {s : St K N T} {id : K} {e : Ent K N T} (hg : s.ents.get id = some e) (sys : Bool)
+    (v : Vals K N T) (lvl : N) :
+    step s (.ccreate sys id false v lvl) =
+      if e.level.isSome then { st := s, err := some .exists } else createOn s sys id v (some lvl) e := by
+  simp [step, hg]
 
-/-- every failure except a refused create leaves even the uncommitted state untouched -/
-theorem step_err_state {s : St K N T} {op : Op K N T} {e : Err} (h : (step s op).err = some e) (hne : e ≠ .sysCreate) :
-    (step s op).st = s := by
+theorem step_update_missing {s : St K N T} {id : K} (hg : s.ents.get id = none) (sys : Bool) (v : Vals K N T)
+    (sn st so : Bool) : step s (.update sys id v sn st so) = { st := s, err := some .notFound } := by
+  simp [step, hg]
+
+theorem step_update_found {s : St K N T} {id : K} {e : Ent K N T} (hg : s.ents.get id = some e) (sys : Bool)
+    (v : Vals K N T) (sn st so : Bool) :
+    step s (.update sys id v sn st so) = updateOn s sys id v sn st so none e := by
+  simp [step, hg]
+
+theorem step_cupdate_missing {s : St K N T} {id : K} (hg : s.ents.get id = none) (sys : Bool) (v : Vals K N T)
+    (sn st so sl : Bool) (lvl : N) : step s (.cupdate sys id v sn st so sl lvl) = { st := s, err := some .notFound } := by
+  simp [step, hg]
+
+theorem step_cupdate_found {s : St K N T} {id : K} {e : Ent K N T} (hg : s.ents.get id = some e) (sys : Bool)
+    (v : Vals K N T) (sn st so sl : Bool) (lvl : N) :
+    step s (.cupdate sys id v sn st so sl lvl) =
+      if e.level.isNone then { st := s, err := some .notFound } else updateOn s sys id v sn st so (some (sl, lvl)) e := by
+  simp [step, hg]
+
+theorem step_delete (s : St K N T) (sys : Bool) (id : K) : step s (.delete sys id) = deleteOne s sys id := rfl
+theorem step_cdelete (s : St K N T) (sys : Bool) (id : K) : step s (.cdelete sys id) = deleteOne s sys id := rfl
+
+theorem step_odelete_missing {s : St K N T} {o : K} (h : o ∉ s.owners) (sys : Bool) :
+    step s (.odelete sys o) = { st := s, err := some .notFound } := by
+  simp [step, h]
+
+/-- deleting an owner: refused as soon as the context may not delete one of the referring entities -/
+theorem step_odelete_found {s : St K N T} {o : K} (h : o ∈ s.owners) (sys : Bool) :
+    step s (.odelete sys o) =
+      if (refs s o).any (fun y => refused s y sys) then
+        { st := (delMany sys s (refs s o)).1, err := some .viaSysDelete }
+      else { st := { ents := unlinkAll (s.ents.delAll (refs s o)) o, owners := s.owners.filter (· ≠ o) } } := by
+  have he := delMany_err sys s (refs s o)
+  simp only [step, h, if_true, cascadeCtx]
+  cases ha : (refs s o).any (fun y => refused s y sys) with
+  | true => rw [ha] at he; simp only [if_true] at he; simp [he]
+  | false =>
+    rw [ha] at he; simp only [Bool.false_eq_true, if_false] at he
+    simp only [he, delMany_ok sys s _ ha, Bool.false_eq_true, if_false]
+
+theorem step_deleteWhere (s : St K N T) (sys : Bool) (q : Query K N) :
+    step s (.deleteWhere sys q) =
+      if (matching s q).any (fun y => refused s y sys) then
+        { st := (delMany sys s (matching s q)).1, err := some .viaSysDelete }
+      else { st := { s with ents := s.ents.delAll (matching s q) } } := by
+  have he := delMany_err sys s (matching s q)
+  simp only [step]
+  cases ha : (matching s q).any (fun y => refused s y sys) with
+  | true => rw [ha] at he; simp only [if_true] at he; simp [he]
+  | false =>
+    rw [ha] at he; simp only [Bool.false_eq_true, if_false] at he
+    simp only [he, delMany_ok sys s _ ha, Bool.false_eq_true, if_false]
+
+theorem step_link_missing {s : St K N T} {sid : K} (hg : s.ents.get sid = none) (oid : K) :
+    step s (.link sid oid) = { st := s, err := some .notFound } := by
+  simp [step, hg]
+
+theorem step_link_found {s : St K N T} {sid : K} {e : Ent K N T} (hg : s.ents.get sid = some e) (oid : K) :
+    step s (.link sid oid) =
+      if oid ∈ s.owners then { st := s.putEnt sid { e with peers := oid :: e.peers.filter (· ≠ oid) } }
+      else { st := s.putEnt sid { e with peers := oid :: e.peers.filter (· ≠ oid) }, err := some .noOwner } := by
+  simp [step, hg]
+
+theorem step_unlink_missing {s : St K N T} {sid : K} (hg : s.ents.get sid = none) (oid : K) :
+    step s (.unlink sid oid) = { st := s, err := some .notFound } := by
+  simp [step, hg]
+
+theorem step_unlink_found {s : St K N T} {sid : K} {e : Ent K N T} (hg : s.ents.get sid = some e) (oid : K) :
+    step s (.unlink sid oid) = { st := s.putEnt sid (unlinkEnt oid e) } := by
+  simp [step, hg]
+
+theorem step_ocreate (s : St K N T) (id : K) (blank : Bool) :
+    step s (.ocreate id blank) =
+      if blank then { st := s, err := some .blank }
+      else if id ∈ s.owners then { st := s, err := some .exists }
+      else { st := { s with owners := id :: s.owners } } := rfl
+
+theorem step_read (s : St K N T) (id : K) : step s (.read id) = { st := s } := rfl
+
+theorem createOn_err_not_ignorable {s : St K N T} {sys : Bool} {id : K} {v : Vals K N T} {lvl : Option N}
+    {e0 : Ent K N T} {e : Err} (h : (createOn s sys id v lvl e0).err = some e) : e.ignorable = false := by
+  rw [createOn_eq] at h
+  split at h
+  · cases h; rfl
+  · split at h
+    · cases h; rfl
+    · cases h
+
+theorem updateOn_err_state {s : St K N T} {id : K} {e0 : Ent K N T} (hg : s.ents.get id = some e0) {sys : Bool}
+    {v : Vals K N T} {sn st so : Bool} {lvl : Option (Bool × N)} {e : Err}
+    (h : (updateOn s sys id v sn st so lvl e0).err = some e) (hi : e.ignorable = true) :
+    (updateOn s sys id v sn st so lvl e0).st = s := by
+  rw [updateOn_eq hg] at h ⊢
+  split at h
+  · rename_i hc; rw [if_pos hc]
+  · split at h
+    · cases h; cases hi
+    · cases h
+
+theorem deleteOne_err_state {s : St K N T} {id : K} {sys : Bool} {e : Err}
+    (h : (deleteOne s sys id).err = some e) : (deleteOne s sys id).st = s := by
+  cases hg : s.ents.get id with
+  | none => rw [deleteOne_missing hg]
+  | some e0 =>
+    rw [deleteOne_found hg] at h ⊢
+    split at h
+    · simp [*]
+    · cases h
+
+/-- every ignorable failure (not found, exists, blank id, refused update, refused direct delete)
+    leaves even the uncommitted state untouched -/
+theorem step_err_state {s : St K N T} {op : Op K N T} {e : Err} (h : (step s op).err = some e)
+    (hi : e.ignorable = true) : (step s op).st = s := by
   cases op with
   | create sys id blank v =>
     cases blank with
     | true => rw [step_create_blank]
     | false =>
-      cases hg : s.get id with
+      cases hg : s.ents.get id with
       | some e0 => rw [step_create_exists hg]
       | none =>
         rw [step_create_new hg] at h
-        cases hc : (v.flag && !sys) with
-        | true => rw [hc] at h; simp at h; exact absurd h.symm hne
-        | false => rw [hc] at h; simp at h
-  | update sys id v setName setTags =>
-    cases hg : s.get id with
+        rw [createOn_err_not_ignorable h] at hi; cases hi
+  | ccreate sys id blank v lvl =>
+    cases blank with
+    | true => rw [step_ccreate_blank]
+    | false =>
+      cases hg : s.ents.get id with
+      | some e0 =>
+        rw [step_ccreate_found hg] at h ⊢
+        split at h
+        · simp [*]
+        · rw [createOn_err_not_ignorable h] at hi; cases hi
+      | none =>
+        rw [step_ccreate_new hg] at h
+        rw [createOn_err_not_ignorable h] at hi; cases hi
+  | update sys id v sn st so =>
+    cases hg : s.ents.get id with
     | none => rw [step_update_missing hg]
     | some e0 =>
       rw [step_update_found hg] at h ⊢
-      cases hc : (e0.isSystem && !sys) with
-      | true => simp
-      | false => rw [hc] at h; simp at h
-  | delete sys id =>
-    cases hg : s.get id with
-    | none => rw [step_delete_missing hg]
+      exact updateOn_err_state hg h hi
+  | cupdate sys id v sn st so sl lvl =>
+    cases hg : s.ents.get id with
+    | none => rw [step_cupdate_missing hg]
     | some e0 =>
-      rw [step_delete_found hg] at h ⊢
-      cases hc : (e0.isSystem && !sys) with
-      | true => simp
-      | false => rw [hc] at h; simp at h
-  | read id => simp [step] at h
+      rw [step_cupdate_found hg] at h ⊢
+      split at h
+      · simp [*]
+      · rename_i hl; simp only [hl]; exact updateOn_err_state hg h hi
+  | delete sys id => rw [step_delete] at h ⊢; exact deleteOne_err_state h
+  | cdelete sys id => rw [step_cdelete] at h ⊢; exact deleteOne_err_state h
+  | ocreate id blank =>
+    rw [step_ocreate] at h ⊢
+    split
+    · rfl
+    · split
+      · rfl
+      · rename_i h1 h2; simp [h1, h2] at h
+  | odelete sys o =>
+    by_cases ho : o ∈ s.owners
+    · rw [step_odelete_found ho] at h
+      split at h
+      · cases h; cases hi
+      · cases h
+    · rw [step_odelete_missing ho]
+  | deleteWhere sys q =>
+    rw [step_deleteWhere] at h
+    split at h
+    · cases h; cases hi
+    · cases h
+  | link sid oid =>
+    cases hg : s.ents.get sid with
+    | none => rw [step_link_missing hg]
+    | some e0 =>
+      rw [step_link_found hg] at h
+      split at h
+      · cases h
+      · cases h; cases hi
+  | unlink sid oid =>
+    cases hg : s.ents.get sid with
+    | none => rw [step_unlink_missing hg]
+    | some e0 => rw [step_unlink_found hg] at h; cases h
+  | read id => rw [step_read] at h; cases h
 
 /-! ### ghost: the flag given when an existing entity was created -/
 
-/-- the IsSystem flag carried by the `Create` call of every entity that currently exists -/
+/-- the IsSystem flag carried by the `Create` call — through S or through the child store — of
+    every entity that currently exists; a child-store `Create` over an existing parent adds its flag
+    to the one on record (`CreateBaseValues` re-runs on the parent bucket: it can set the key, never
+    clear it) -/
 def bornStep (s : St K N T) (g : Map K Bool) (op : Op K N T) : Map K Bool :=
   match (step s op).err with
   | some _ => g
   | none =>
     match op with
     | .create _ id _ v => g.put id v.flag
+    | .ccreate _ id _ v _ => g.put id (v.flag || (g.get id).getD false)
     | .delete _ id => g.del id
+    | .cdelete _ id => g.del id
+    | .odelete _ o => g.delAll (refs s o)
+    | .deleteWhere _ q => g.delAll (matching s q)
     | _ => g
 
 def runOpsG (k : Bool) : St K N T × Map K Bool → List (Op K N T) → (St K N T × Map K Bool) × Bool
@@ -148,7 +614,7 @@ def runOpsG (k : Bool) : St K N T × Map K Bool → List (Op K N T) → (St K N 
     let o := step sg.1 op
     match o.err with
     | none => runOpsG k (o.st, bornStep sg.1 sg.2 op) ops
-    | some e => if k && e ≠ .sysCreate then runOpsG k (o.st, bornStep sg.1 sg.2 op) ops else ((o.st, sg.2), true)
+    | some e => if k && e.ignorable then runOpsG k (o.st, bornStep sg.1 sg.2 op) ops else ((o.st, sg.2), true)
 
 def commitTxG (sg : St K N T × Map K Bool) (tx : Bool × List (Op K N T)) : St K N T × Map K Bool :=
   let r := runOpsG tx.1 sg tx.2
@@ -165,7 +631,7 @@ theorem runOpsG_cons_ok {k : Bool} {sg : St K N T × Map K Bool} {op : Op K N T}
 theorem runOpsG_cons_err {k : Bool} {sg : St K N T × Map K Bool} {op : Op K N T} {ops : List (Op K N T)} {e : Err}
     (h : (step sg.1 op).err = some e) :
     runOpsG k sg (op :: ops) =
-      if k && e ≠ .sysCreate then runOpsG k ((step sg.1 op).st, bornStep sg.1 sg.2 op) ops
+      if k && e.ignorable then runOpsG k ((step sg.1 op).st, bornStep sg.1 sg.2 op) ops
       else (((step sg.1 op).st, sg.2), true) := by
   simp only [runOpsG, h]
 
@@ -205,79 +671,218 @@ theorem runHistG_fst (sg : St K N T × Map K Bool) (txs : List (Bool × List (Op
     unfold runHistG runHist at this
     rw [this, commitTxG_fst]
 
-/-- the invariant: the stored flag (as read back) of every existing entity is the flag it was created with -/
+/-- the invariant: the stored flag (as read back) of every existing entity is the flag on record -/
 def FlagInv (sg : St K N T × Map K Bool) : Prop :=
-  ∀ id, (sg.1.get id).map Ent.isSystem = sg.2.get id
+  ∀ id, (sg.1.ents.get id).map Ent.isSystem = sg.2.get id
 
-theorem flagInv_nil : FlagInv (([] : St K N T), ([] : Map K Bool)) := by intro id; rfl
+theorem flagInv_nil : FlagInv ((St.empty : St K N T), ([] : Map K Bool)) := by intro id; rfl
 
-theorem step_flagInv {s : St K N T} {g : Map K Bool} (h : FlagInv (s, g)) (op : Op K N T) :
-    FlagInv ((step s op).st, bornStep s g op) ∨ (step s op).err = some .sysCreate := by
+theorem flagInv_put {s : St K N T} {g : Map K Bool} (h : FlagInv (s, g)) (id : K) (e : Ent K N T) :
+    FlagInv (s.putEnt id e, g.put id e.isSystem) := by
+  intro x
+  simp only [putEnt_ents, Map.get_put]
+  by_cases hx : id = x
+  · simp [hx]
+  · simp only [hx, if_false]; exact h x
+
+theorem flagInv_put_same {s : St K N T} {g : Map K Bool} (h : FlagInv (s, g)) {id : K} {e0 : Ent K N T}
+    (hg : s.ents.get id = some e0) (e : Ent K N T) (hs : e.isSystem = e0.isSystem) :
+    FlagInv (s.putEnt id e, g) := by
+  intro x
+  simp only [putEnt_ents, Map.get_put]
+  by_cases hx : id = x
+  · subst hx
+    have := h id
+    simp only [hg, Option.map_some] at this
+    simp [hs, this]
+  · simp only [hx, if_false]; exact h x
+
+theorem flagInv_delAll {m : Map K (Ent K N T)} {ow : List K} {g : Map K Bool} (h : FlagInv (⟨m, ow⟩, g))
+    (ids ow' : List K) : FlagInv (⟨m.delAll ids, ow'⟩, g.delAll ids) := by
+  intro x
+  simp only [Map.get_delAll]
+  by_cases hx : x ∈ ids
+  · simp [hx]
+  · simp only [hx, if_false]; exact h x
+
+theorem flagInv_unlinkAll {m : Map K (Ent K N T)} {ow : List K} {g : Map K Bool} (h : FlagInv (⟨m, ow⟩, g))
+    (o : K) (ow' : List K) : FlagInv (⟨unlinkAll m o, ow'⟩, g) := by
+  intro x
+  have := h x
+  simp only [get_unlinkAll] at this ⊢
+  rw [← this]
+  cases m.get x <;> rfl
+
+theorem createOn_ok {s : St K N T} {sys : Bool} {id : K} {v : Vals K N T} {lvl : Option N} {e0 : Ent K N T}
+    (h : (createOn s sys id v lvl e0).err = none) :
+    createOn s sys id v lvl e0 = { st := s.putEnt id (mkEnt v lvl e0) } ∧ ownerOk s v.owner = true ∧
+      ((v.flag || e0.isSystem) && !sys) = false := by
+  rw [createOn_eq] at h ⊢
+  split at h
+  · cases h
+  · split at h
+    · cases h
+    · rename_i h1 h2
+      simp only [h1, h2, if_false, Bool.false_eq_true, true_and]
+      exact ⟨by simpa using h1, by simpa using h2⟩
+
+theorem updateOn_ok {s : St K N T} {id : K} {e0 : Ent K N T} (hg : s.ents.get id = some e0) {sys : Bool}
+    {v : Vals K N T} {sn st so : Bool} {lvl : Option (Bool × N)}
+    (h : (updateOn s sys id v sn st so lvl e0).err = none) :
+    updateOn s sys id v sn st so lvl e0 = { st := s.putEnt id (updEnt v sn st so lvl e0) } ∧
+      (e0.isSystem && !sys) = false := by
+  rw [updateOn_eq hg] at h ⊢
+  split at h
+  · cases h
+  · split at h
+    · cases h
+    · rename_i h1 h2
+      simp only [h1, h2, if_false, Bool.false_eq_true, true_and]
+
+theorem deleteOne_ok {s : St K N T} {id : K} {sys : Bool} (h : (deleteOne s sys id).err = none) :
+    ∃ e0, s.ents.get id = some e0 ∧ (e0.isSystem && !sys) = false ∧ deleteOne s sys id = { st := s.delEnt id } := by
+  cases hg : s.ents.get id with
+  | none => rw [deleteOne_missing hg] at h; cases h
+  | some e0 =>
+    rw [deleteOne_found hg] at h ⊢
+    split at h
+    · cases h
+    · rename_i h1
+      exact ⟨e0, rfl, by simpa using h1, by simp only [h1, if_false, Bool.false_eq_true]⟩
+
+theorem step_flagInv {s : St K N T} {g : Map K Bool} (h : FlagInv (s, g)) (op : Op K N T)
+    (hc : ∀ e, (step s op).err = some e → e.ignorable = true) :
+    FlagInv ((step s op).st, bornStep s g op) := by
   cases he : (step s op).err with
   | some e =>
-    by_cases hc : e = .sysCreate
-    · right; rw [hc]
-    · left
-      have := step_err_state he hc
-      unfold bornStep; rw [he, this]; exact h
+    have := step_err_state he (hc e he)
+    unfold bornStep; rw [he, this]; exact h
   | none =>
-    left
     unfold bornStep; rw [he]
     cases op with
     | create sys id blank v =>
       simp only
       cases blank with
-      | true => rw [step_create_blank] at he; simp at he
+      | true => rw [step_create_blank] at he; cases he
       | false =>
-        cases hg : s.get id with
-        | some e0 => rw [step_create_exists hg] at he; simp at he
+        cases hg : s.ents.get id with
+        | some e0 => rw [step_create_exists hg] at he; cases he
         | none =>
           rw [step_create_new hg] at he ⊢
-          cases hc : (v.flag && !sys) with
-          | true => rw [hc] at he; simp at he
-          | false =>
-            simp only [Bool.false_eq_true, if_false]
-            intro x
-            simp only
-            rw [Map.get_put, Map.get_put]
-            by_cases hx : id = x
-            · simp [hx, newEnt_isSystem]
-            · simp only [hx, if_false]; exact h x
-    | update sys id v setName setTags =>
+          rw [(createOn_ok he).1]
+          have := flagInv_put h id (mkEnt v none (blankEnt v.name))
+          rw [mkEnt_isSystem, blankEnt_isSystem, Bool.or_false] at this
+          exact this
+    | ccreate sys id blank v lvl =>
       simp only
-      cases hg : s.get id with
-      | none => rw [step_update_missing hg] at he; simp at he
+      cases blank with
+      | true => rw [step_ccreate_blank] at he; cases he
+      | false =>
+        cases hg : s.ents.get id with
+        | some e0 =>
+          rw [step_ccreate_found hg] at he ⊢
+          split at he
+          · cases he
+          · rename_i hl
+            simp only [hl, if_false]
+            rw [(createOn_ok he).1]
+            have := flagInv_put h id (mkEnt v (some lvl) e0)
+            rw [mkEnt_isSystem] at this
+            have hgi := h id
+            simp only [hg, Option.map_some] at hgi
+            rw [← hgi]; exact this
+        | none =>
+          rw [step_ccreate_new hg] at he ⊢
+          rw [(createOn_ok he).1]
+          have := flagInv_put h id (mkEnt v (some lvl) (blankEnt v.name))
+          rw [mkEnt_isSystem, blankEnt_isSystem] at this
+          have hgi := h id
+          simp only [hg, Option.map_none] at hgi
+          rw [← hgi]; exact this
+    | update sys id v sn st so =>
+      simp only
+      cases hg : s.ents.get id with
+      | none => rw [step_update_missing hg] at he; cases he
       | some e0 =>
         rw [step_update_found hg] at he ⊢
-        cases hc : (e0.isSystem && !sys) with
-        | true => rw [hc] at he; simp at he
-        | false =>
-          simp only [Bool.false_eq_true, if_false]
-          intro x
-          simp only
-          rw [Map.get_put]
-          by_cases hx : id = x
-          · subst hx
-            have := h id
-            simp only [hg, Option.map] at this
-            simp only [if_true, Option.map]; rw [← this, persist_update_isSystem]
-          · simp only [hx, if_false]; exact h x
+        rw [(updateOn_ok hg he).1]
+        exact flagInv_put_same h hg _ (updEnt_isSystem ..)
+    | cupdate sys id v sn st so sl lvl =>
+      simp only
+      cases hg : s.ents.get id with
+      | none => rw [step_cupdate_missing hg] at he; cases he
+      | some e0 =>
+        rw [step_cupdate_found hg] at he ⊢
+        split at he
+        · cases he
+        · rename_i hl
+          simp only [hl, if_false]
+          rw [(updateOn_ok hg he).1]
+          exact flagInv_put_same h hg _ (updEnt_isSystem ..)
     | delete sys id =>
       simp only
-      cases hg : s.get id with
-      | none => rw [step_delete_missing hg] at he; simp at he
+      rw [step_delete] at he ⊢
+      obtain ⟨e0, _, _, hd⟩ := deleteOne_ok he
+      rw [hd]
+      intro x
+      simp only [delEnt_ents, Map.get_del]
+      by_cases hx : id = x
+      · simp [hx]
+      · simp only [hx, if_false]; exact h x
+    | cdelete sys id =>
+      simp only
+      rw [step_cdelete] at he ⊢
+      obtain ⟨e0, _, _, hd⟩ := deleteOne_ok he
+      rw [hd]
+      intro x
+      simp only [delEnt_ents, Map.get_del]
+      by_cases hx : id = x
+      · simp [hx]
+      · simp only [hx, if_false]; exact h x
+    | ocreate id blank =>
+      simp only
+      rw [step_ocreate] at he ⊢
+      split
+      · exact h
+      · split
+        · exact h
+        · exact h
+    | odelete sys o =>
+      simp only
+      by_cases ho : o ∈ s.owners
+      · rw [step_odelete_found ho] at he ⊢
+        split at he
+        · cases he
+        · rename_i ha
+          simp only [ha, if_false]
+          exact flagInv_unlinkAll (flagInv_delAll (m := s.ents) (ow := s.owners) h (refs s o) s.owners) o _
+      · rw [step_odelete_missing ho] at he; cases he
+    | deleteWhere sys q =>
+      simp only
+      rw [step_deleteWhere] at he ⊢
+      split at he
+      · cases he
+      · rename_i ha
+        simp only [ha, if_false]
+        exact flagInv_delAll (m := s.ents) (ow := s.owners) h (matching s q) s.owners
+    | link sid oid =>
+      simp only
+      cases hg : s.ents.get sid with
+      | none => rw [step_link_missing hg] at he; cases he
       | some e0 =>
-        rw [step_delete_found hg] at he ⊢
-        cases hc : (e0.isSystem && !sys) with
-        | true => rw [hc] at he; simp at he
-        | false =>
-          simp only [Bool.false_eq_true, if_false]
-          intro x
-          simp only
-          rw [Map.get_del, Map.get_del]
-          by_cases hx : id = x
-          · simp [hx]
-          · simp only [hx, if_false]; exact h x
+        rw [step_link_found hg] at he ⊢
+        split at he
+        · rename_i ho
+          simp only [ho, if_true]
+          exact flagInv_put_same h hg _ rfl
+        · cases he
+    | unlink sid oid =>
+      simp only
+      cases hg : s.ents.get sid with
+      | none => rw [step_unlink_missing hg] at he; cases he
+      | some e0 =>
+        rw [step_unlink_found hg]
+        exact flagInv_put_same h hg _ rfl
     | read id => exact h
 
 theorem runOpsG_flagInv (k : Bool) {sg : St K N T × Map K Bool} (h : FlagInv sg) (ops : List (Op K N T))
@@ -289,16 +894,15 @@ theorem runOpsG_flagInv (k : Bool) {sg : St K N T × Map K Bool} (h : FlagInv sg
     cases he : (step s op).err with
     | none =>
       rw [runOpsG_cons_ok (sg := (s, g)) he] at hok ⊢
-      rcases step_flagInv h op with h' | h'
-      · exact ih h' hok
-      · rw [he] at h'; cases h'
+      exact ih (step_flagInv h op (by intro e h'; rw [he] at h'; cases h')) hok
     | some e =>
       rw [runOpsG_cons_err (sg := (s, g)) he] at hok ⊢
-      by_cases hk : (k && decide (e ≠ .sysCreate)) = true
+      by_cases hk : (k && e.ignorable) = true
       · rw [if_pos hk] at hok ⊢
-        rcases step_flagInv h op with h' | h'
-        · exact ih h' hok
-        · rw [he] at h'; cases h'; simp at hk
+        refine ih (step_flagInv h op ?_) hok
+        intro e' h'
+        rw [he] at h'; cases h'
+        simp only [Bool.and_eq_true] at hk; exact hk.2
       · rw [if_neg hk] at hok; simp at hok
 
 theorem commitTxG_flagInv {sg : St K N T × Map K Bool} (h : FlagInv sg) (tx : Bool × List (Op K N T)) :
@@ -317,87 +921,482 @@ theorem runHistG_flagInv {sg : St K N T × Map K Bool} (h : FlagInv sg) (txs : L
 /-! ### the model refines the spec -/
 
 /-- abstraction: what the property can see of an entity -/
-def absEnt (e : Ent N T) : SEnt N T :=
-  { isSys := e.isSystem, name := e.name, tags := e.tags, created := e.created, updated := e.updated }
+def absEnt (e : Ent K N T) : SEnt K N T :=
+  { isSys := e.isSystem, name := e.name, tags := e.tags, created := e.created, updated := e.updated,
+    owner := e.owner, level := e.level }
 
-def abs (s : St K N T) : SSt K N T := s.map fun p => (p.1, absEnt p.2)
+def absM (m : Map K (Ent K N T)) : Map K (SEnt K N T) := m.map fun p => (p.1, absEnt p.2)
 
-theorem get_abs (s : St K N T) (id : K) : (abs s).get id = (s.get id).map absEnt := by
-  induction s with
+def abs (s : St K N T) : SSt K N T := { ents := absM s.ents, owners := s.owners }
+
+theorem get_absM (m : Map K (Ent K N T)) (id : K) : (absM m).get id = (m.get id).map absEnt := by
+  induction m with
   | nil => rfl
-  | cons p s ih =>
+  | cons p m ih =>
     obtain ⟨a, v⟩ := p
-    simp only [abs, List.map_cons, Map.get] at ih ⊢
+    simp only [absM, List.map_cons, Map.get] at ih ⊢
     by_cases h : a = id
     · simp [h]
     · simp only [h, if_false]; exact ih
 
-theorem abs_del (s : St K N T) (id : K) : abs (s.del id) = (abs s).del id := by
-  induction s with
+theorem absM_del (m : Map K (Ent K N T)) (id : K) : absM (m.del id) = (absM m).del id := by
+  induction m with
   | nil => rfl
-  | cons p s ih =>
+  | cons p m ih =>
     obtain ⟨a, v⟩ := p
-    simp only [abs, Map.del, List.map_cons, List.filter] at ih ⊢
+    simp only [absM, Map.del, List.map_cons, List.filter] at ih ⊢
     by_cases h : a = id
     · simp only [h, ne_eq, not_true_eq_false, decide_false]; exact ih
     · simp only [ne_eq, h, not_false_eq_true, decide_true, List.map_cons]; rw [ih]
 
-theorem abs_put (s : St K N T) (id : K) (e : Ent N T) : abs (s.put id e) = (abs s).put id (absEnt e) := by
+theorem absM_put (m : Map K (Ent K N T)) (id : K) (e : Ent K N T) : absM (m.put id e) = (absM m).put id (absEnt e) := by
   unfold Map.put
-  simp only [abs, List.map_cons]
-  have := abs_del s id
-  simp only [abs] at this
+  simp only [absM, List.map_cons]
+  have := absM_del m id
+  simp only [absM] at this
   rw [this]
 
-theorem absEnt_new (v : Vals N T) :
-    absEnt (newEnt v : Ent N T) = { isSys := v.flag, name := v.name, tags := v.tags, created := if v.migrate then .given v.cAt else .now, updated := if v.migrate then .given v.uAt else .now } := by
-  unfold absEnt newEnt persist setBaseValues createBaseValues blankEnt
-  cases hf : v.flag <;> cases hm : v.migrate <;> simp [Ent.isSystem]
+theorem absM_delAll (m : Map K (Ent K N T)) (ids : List K) : absM (m.delAll ids) = (absM m).delAll ids := by
+  induction ids generalizing m with
+  | nil => simp [Map.delAll_nil]
+  | cons a ids ih => rw [Map.delAll_cons, Map.delAll_cons, ih, absM_del]
 
-theorem absEnt_update (v : Vals N T) (sn st : Bool) (e : Ent N T) :
-    absEnt (persist false v sn st e) = { isSys := e.isSystem, name := if sn then v.name else e.name, tags := if st then v.tags else e.tags, created := e.created, updated := .now } := by
-  unfold absEnt persist setBaseValues updateBaseValues Ent.isSystem
-  cases sn <;> simp
+theorem absM_unlinkAll (m : Map K (Ent K N T)) (o : K) : absM (unlinkAll m o) = absM m := by
+  unfold absM unlinkAll
+  rw [List.map_map]
+  rfl
 
-/-- one operation: the model fails iff the spec fails, and a success lands in the spec's state -/
-theorem step_refines (s : St K N T) (op : Op K N T) :
-    match (step s op).err with
-    | none => sstep (abs s) op = some (abs (step s op).st)
-    | some _ => sstep (abs s) op = none := by
+theorem srefused_abs (s : St K N T) (sys : Bool) (y : K) : srefused (abs s) sys y = refused s y sys := by
+  unfold srefused refused abs
+  simp only [get_absM]
+  cases s.ents.get y <;> rfl
+
+theorem sownerOk_abs (s : St K N T) (o : Option K) : sownerOk (abs s) o = ownerOk s o := by
+  cases o <;> rfl
+
+theorem any_sortKeys (l : List K) (f : K → Bool) : (sortKeys l).any f = l.any f := by
+  rw [Bool.eq_iff_iff]
+  simp only [List.any_eq_true, mem_sortKeys]
+
+theorem delAll_sortKeys {ν : Type} (m : Map K ν) (l : List K) : m.delAll (sortKeys l) = m.delAll l := by
+  unfold Map.delAll
+  congr 1
+  funext p
+  simp only [mem_sortKeys]
+
+/-- the list of ids a filter over the entities yields is the same on both levels when the
+    predicates agree on every stored entity -/
+theorem filter_keys_abs (m : Map K (Ent K N T)) (f : Ent K N T → Bool) (g : SEnt K N T → Bool)
+    (h : ∀ p ∈ m, f p.2 = g (absEnt p.2)) :
+    ((absM m).filter fun p => g p.2).map (·.1) = (m.filter fun p => f p.2).map (·.1) := by
+  induction m with
+  | nil => rfl
+  | cons p m ih =>
+    have hp := h p (List.mem_cons_self ..)
+    have ih' := ih (fun q hq => h q (List.mem_cons_of_mem _ hq))
+    simp only [absM, List.map_cons, List.filter] at ih' ⊢
+    rw [← hp]
+    cases f p.2 <;> simp [ih']
+
+theorem srefs_abs (s : St K N T) (o : K) : refs s o = sortKeys (srefs (abs s) o) := by
+  unfold refs srefs abs
+  rw [filter_keys_abs s.ents (fun e => decide (e.owner = some o)) (fun e => decide (e.owner = some o))]
+  intro p _; rfl
+
+/-- no bucket holds the key with the value `false` (`CreateBaseValues` only ever writes `true`) -/
+def WF (s : St K N T) : Prop := ∀ p ∈ s.ents, p.2.flag ≠ some false
+
+theorem eval_abs (q : Query K N) (e : Ent K N T) (h : e.flag ≠ some false) : q.eval e = q.seval (absEnt e) := by
+  cases q with
+  | all => rfl
+  | name n => rfl
+  | owner o => rfl
+  | flag b =>
+    simp only [Query.eval, Query.seval, absEnt, Ent.isSystem]
+    cases b with
+    | true => cases hf : e.flag with
+      | none => simp
+      | some x => cases x <;> simp
+    | false => cases hf : e.flag with
+      | none => simp
+      | some x => cases x with
+        | true => simp
+        | false => exact absurd hf h
+
+theorem smatching_abs (s : St K N T) (hw : WF s) (q : Query K N) : matching s q = sortKeys (smatching (abs s) q) := by
+  unfold matching smatching abs
+  rw [filter_keys_abs s.ents (fun e => q.eval e) (fun e => q.seval e)]
+  intro p hp; exact eval_abs q p.2 (hw p hp)
+
+theorem sdeleteAll_abs (s : St K N T) (sys : Bool) (l : List K) :
+    sdeleteAll (abs s) sys l =
+      if (sortKeys l).any (fun y => refused s y sys) then none
+      else some (abs { s with ents := s.ents.delAll (sortKeys l) }) := by
+  unfold sdeleteAll
+  rw [any_sortKeys, delAll_sortKeys]
+  have : (fun y => srefused (abs s) sys y) = (fun y => refused s y sys) := funext (srefused_abs s sys)
+  have h2 : (l.any (srefused (abs s) sys)) = l.any (fun y => refused s y sys) := by rw [← this]
+  rw [h2]
+  split
+  · rfl
+  · simp only [abs, absM_delAll]
+
+/-! WF is kept by every successful operation -/
+
+theorem wf_put {s : St K N T} (hw : WF s) (id : K) (e : Ent K N T) (he : e.flag ≠ some false) : WF (s.putEnt id e) := by
+  intro p hp
+  rcases Map.mem_put hp with h | h
+  · rw [h]; exact he
+  · exact hw p h
+
+theorem wf_of_get {s : St K N T} (hw : WF s) {id : K} {e : Ent K N T} (hg : s.ents.get id = some e) :
+    e.flag ≠ some false := hw (id, e) (Map.get_some_mem hg)
+
+theorem wf_delAll {s : St K N T} (hw : WF s) (ids : List K) (ow : List K) :
+    WF ({ ents := s.ents.delAll ids, owners := ow } : St K N T) := by
+  intro p hp; exact hw p (Map.mem_delAll hp)
+
+theorem wf_unlinkAll {m : Map K (Ent K N T)} {ow : List K} (hw : WF (⟨m, ow⟩ : St K N T)) (o : K) (ow' : List K) :
+    WF (⟨unlinkAll m o, ow'⟩ : St K N T) := by
+  intro p hp
+  unfold unlinkAll at hp
+  obtain ⟨q, hq, rfl⟩ := List.mem_map.mp hp
+  exact hw q hq
+
+theorem mkEnt_wf (v : Vals K N T) (lvl : Option N) {e : Ent K N T} (h : e.flag ≠ some false) :
+    (mkEnt v lvl e).flag ≠ some false := by
+  rw [mkEnt_flag]; split
+  · simp
+  · exact h
+
+theorem step_wf {s : St K N T} (hw : WF s) (op : Op K N T) (he : (step s op).err = none) : WF (step s op).st := by
   cases op with
   | create sys id blank v =>
     cases blank with
-    | true => rw [step_create_blank]; simp [sstep]
+    | true => rw [step_create_blank] at he; cases he
     | false =>
-      cases hg : s.get id with
-      | some e => rw [step_create_exists hg]; simp [sstep, get_abs, hg]
+      cases hg : s.ents.get id with
+      | some e0 => rw [step_create_exists hg] at he; cases he
+      | none =>
+        rw [step_create_new hg] at he ⊢
+        rw [(createOn_ok he).1]
+        exact wf_put hw _ _ (mkEnt_wf v none (by simp [blankEnt]))
+  | ccreate sys id blank v lvl =>
+    cases blank with
+    | true => rw [step_ccreate_blank] at he; cases he
+    | false =>
+      cases hg : s.ents.get id with
+      | some e0 =>
+        rw [step_ccreate_found hg] at he ⊢
+        split at he
+        · cases he
+        · rename_i hl
+          simp only [hl, if_false]
+          rw [(createOn_ok he).1]
+          exact wf_put hw _ _ (mkEnt_wf v _ (wf_of_get hw hg))
+      | none =>
+        rw [step_ccreate_new hg] at he ⊢
+        rw [(createOn_ok he).1]
+        exact wf_put hw _ _ (mkEnt_wf v _ (by simp [blankEnt]))
+  | update sys id v sn st so =>
+    cases hg : s.ents.get id with
+    | none => rw [step_update_missing hg] at he; cases he
+    | some e0 =>
+      rw [step_update_found hg] at he ⊢
+      rw [(updateOn_ok hg he).1]
+      exact wf_put hw _ _ (by rw [updEnt_flag]; exact wf_of_get hw hg)
+  | cupdate sys id v sn st so sl lvl =>
+    cases hg : s.ents.get id with
+    | none => rw [step_cupdate_missing hg] at he; cases he
+    | some e0 =>
+      rw [step_cupdate_found hg] at he ⊢
+      split at he
+      · cases he
+      · rename_i hl
+        simp only [hl, if_false]
+        rw [(updateOn_ok hg he).1]
+        exact wf_put hw _ _ (by rw [updEnt_flag]; exact wf_of_get hw hg)
+  | delete sys id =>
+    rw [step_delete] at he ⊢
+    obtain ⟨e0, _, _, hd⟩ := deleteOne_ok he
+    rw [hd]
+    intro p hp; exact hw p (Map.mem_del hp)
+  | cdelete sys id =>
+    rw [step_cdelete] at he ⊢
+    obtain ⟨e0, _, _, hd⟩ := deleteOne_ok he
+    rw [hd]
+    intro p hp; exact hw p (Map.mem_del hp)
+  | ocreate id blank =>
+    rw [step_ocreate]
+    split
+    · exact hw
+    · split
+      · exact hw
+      · exact hw
+  | odelete sys o =>
+    by_cases ho : o ∈ s.owners
+    · rw [step_odelete_found ho] at he ⊢
+      split at he
+      · cases he
+      · rename_i ha
+        simp only [ha, if_false]
+        exact wf_unlinkAll (wf_delAll hw (refs s o) s.owners) o _
+    · rw [step_odelete_missing ho] at he; cases he
+  | deleteWhere sys q =>
+    rw [step_deleteWhere] at he ⊢
+    split at he
+    · cases he
+    · rename_i ha
+      simp only [ha, if_false]
+      exact wf_delAll hw _ _
+  | link sid oid =>
+    cases hg : s.ents.get sid with
+    | none => rw [step_link_missing hg] at he; cases he
+    | some e0 =>
+      rw [step_link_found hg] at he ⊢
+      split at he
+      · rename_i ho
+        simp only [ho, if_true]
+        exact wf_put hw _ _ (show e0.flag ≠ some false from wf_of_get hw hg)
+      · cases he
+  | unlink sid oid =>
+    cases hg : s.ents.get sid with
+    | none => rw [step_unlink_missing hg] at he; cases he
+    | some e0 =>
+      rw [step_unlink_found hg]
+      exact wf_put hw _ _ (show e0.flag ≠ some false from wf_of_get hw hg)
+  | read id => exact hw
+
+theorem absEnt_mkEnt (v : Vals K N T) (lvl : Option N) (e : Ent K N T) :
+    absEnt (mkEnt v lvl e) = snew v (v.flag || e.isSystem) (match lvl with | some l => some l | none => e.level) := by
+  unfold absEnt snew
+  rw [mkEnt_isSystem]
+  unfold mkEnt persist setBaseValues createBaseValues
+  cases lvl <;> cases hf : v.flag <;> cases hm : v.migrate <;> simp
+
+theorem absEnt_updEnt (v : Vals K N T) (sn st so : Bool) (lvl : Option (Bool × N)) (e : Ent K N T) :
+    absEnt (updEnt v sn st so lvl e) =
+      { isSys := e.isSystem, name := if sn then v.name else e.name, tags := if st then v.tags else e.tags,
+        created := e.created, updated := .now, owner := if so then v.owner else e.owner,
+        level := match lvl with | some (true, l) => some l | _ => e.level } := by
+  unfold absEnt
+  rw [updEnt_isSystem]
+  unfold updEnt persist setBaseValues updateBaseValues
+  rcases lvl with _ | ⟨b, l⟩
+  · cases sn <;> cases so <;> simp
+  · cases b <;> cases sn <;> cases so <;> simp
+
+theorem updEnt_owner (v : Vals K N T) (sn st so : Bool) (lvl : Option (Bool × N)) (e : Ent K N T) :
+    (updEnt v sn st so lvl e).owner = if so then v.owner else e.owner := by
+  have := congrArg SEnt.owner (absEnt_updEnt v sn st so lvl e)
+  exact this
+
+theorem abs_ents (s : St K N T) : (abs s).ents = absM s.ents := rfl
+theorem abs_owners (s : St K N T) : (abs s).owners = s.owners := rfl
+theorem abs_putEnt (s : St K N T) (id : K) (e : Ent K N T) :
+    abs (s.putEnt id e) = { abs s with ents := (abs s).ents.put id (absEnt e) } := by
+  simp only [abs, putEnt_ents, putEnt_owners, absM_put]
+theorem abs_delEnt (s : St K N T) (id : K) :
+    abs (s.delEnt id) = { abs s with ents := (abs s).ents.del id } := by
+  simp only [abs, delEnt_ents, delEnt_owners, absM_del]
+
+theorem createOn_refines (s : St K N T) (sys : Bool) (id : K) (v : Vals K N T) (lvl : Option N) (e0 : Ent K N T) :
+    match (createOn s sys id v lvl e0).err with
+    | none => (!sownerOk (abs s) v.owner || ((e0.isSystem || v.flag) && !sys)) = false ∧
+        abs (createOn s sys id v lvl e0).st =
+          { abs s with ents := (abs s).ents.put id (snew v (e0.isSystem || v.flag)
+              (match lvl with | some l => some l | none => e0.level)) }
+    | some e => (!sownerOk (abs s) v.owner || ((e0.isSystem || v.flag) && !sys)) = true ∧ e.ignorable = false := by
+  rw [createOn_eq, sownerOk_abs]
+  cases ho : ownerOk s v.owner with
+  | false => simp [Err.ignorable]
+  | true =>
+    simp only [Bool.not_true, Bool.false_eq_true, if_false, Bool.false_or]
+    rw [Bool.or_comm e0.isSystem v.flag]
+    cases hc : ((v.flag || e0.isSystem) && !sys) with
+    | true => simp [Err.ignorable]
+    | false =>
+      simp only [Bool.false_eq_true, if_false, true_and]
+      rw [abs_putEnt, absEnt_mkEnt] <;> rfl
+
+/-- the level argument the spec's update sees -/
+def specLvl (lvl : Option (Bool × N)) : Option N :=
+  match lvl with
+  | some (true, l) => some l
+  | _ => none
+
+theorem updateOn_refines {s : St K N T} {id : K} {e : Ent K N T} (hg : s.ents.get id = some e) (sys : Bool)
+    (v : Vals K N T) (sn st so : Bool) (lvl : Option (Bool × N)) :
+    match (updateOn s sys id v sn st so lvl e).err with
+    | none => supdate (abs s) sys id v sn st so (specLvl lvl) (absEnt e) = .ok (abs (updateOn s sys id v sn st so lvl e).st)
+    | some err => supdate (abs s) sys id v sn st so (specLvl lvl) (absEnt e) = .fail err.ignorable := by
+  rw [updateOn_eq hg]
+  unfold supdate
+  have hi : (absEnt e).isSys = e.isSystem := rfl
+  have ho : (absEnt e).owner = e.owner := rfl
+  rw [hi, ho, updEnt_owner]
+  cases hc : (e.isSystem && !sys) with
+  | true => simp [Err.ignorable]
+  | false =>
+    simp only [Bool.false_eq_true, if_false, sownerOk_abs]
+    cases hd : (decide ((if so then v.owner else e.owner) ≠ e.owner) && !ownerOk s (if so then v.owner else e.owner)) with
+    | true => simp [Err.ignorable]
+    | false =>
+      simp only [Bool.false_eq_true, if_false]
+      rw [abs_putEnt, absEnt_updEnt]
+      congr 2
+      unfold specLvl absEnt
+      rcases lvl with _ | ⟨b, l⟩
+      · rfl
+      · cases b <;> rfl
+
+theorem deleteOne_refines (s : St K N T) (sys : Bool) (id : K) :
+    match (deleteOne s sys id).err with
+    | none => sdelete (abs s) sys id = .ok (abs (deleteOne s sys id).st)
+    | some err => sdelete (abs s) sys id = .fail err.ignorable := by
+  cases hg : s.ents.get id with
+  | none => rw [deleteOne_missing hg]; simp [sdelete, abs_ents, get_absM, hg, Err.ignorable]
+  | some e =>
+    rw [deleteOne_found hg]
+    have hi : (absEnt e).isSys = e.isSystem := rfl
+    cases hc : (e.isSystem && !sys) with
+    | true => simp [sdelete, abs_ents, get_absM, hg, hi, hc, Err.ignorable]
+    | false =>
+      simp only [Bool.false_eq_true, if_false, sdelete, abs_ents, get_absM, hg, Option.map_some, hi, hc]
+      rw [abs_delEnt]; rfl
+
+/-- one operation: the model fails iff the spec fails — with an error of the same kind
+    (ignorable or not) —, and a success lands in the spec's state -/
+theorem step_refines (s : St K N T) (hw : WF s) (op : Op K N T) :
+    match (step s op).err with
+    | none => sstep (abs s) op = .ok (abs (step s op).st)
+    | some e => sstep (abs s) op = .fail e.ignorable := by
+  cases op with
+  | create sys id blank v =>
+    cases blank with
+    | true => rw [step_create_blank]; simp [sstep, Err.ignorable]
+    | false =>
+      cases hg : s.ents.get id with
+      | some e => rw [step_create_exists hg]; simp [sstep, abs_ents, get_absM, hg, Err.ignorable]
       | none =>
         rw [step_create_new hg]
-        cases hc : (v.flag && !sys) with
-        | true => simp [sstep, hc]
+        have := createOn_refines s sys id v none (blankEnt v.name)
+        rw [blankEnt_isSystem, Bool.false_or] at this
+        cases he : (createOn s sys id v none (blankEnt v.name)).err with
+        | none =>
+          rw [he] at this; simp only at this
+          simp only [sstep, abs_ents, get_absM, hg, Option.map_none, Option.isSome_none, Bool.or_false,
+            Bool.false_eq_true, if_false]
+          rw [← abs_ents, this.1, this.2]; rfl
+        | some e =>
+          rw [he] at this; simp only at this
+          simp only [sstep, abs_ents, get_absM, hg, Option.map_none, Option.isSome_none, Bool.or_false,
+            Bool.false_eq_true, if_false]
+          rw [← abs_ents, this.1, this.2]; rfl
+  | ccreate sys id blank v lvl =>
+    cases blank with
+    | true => rw [step_ccreate_blank]; simp [sstep, Err.ignorable]
+    | false =>
+      cases hg : s.ents.get id with
+      | some e0 =>
+        rw [step_ccreate_found hg]
+        have hl : (absEnt e0).level = e0.level := rfl
+        have hi : (absEnt e0).isSys = e0.isSystem := rfl
+        cases hlv : e0.level.isSome with
+        | true => simp [sstep, abs_ents, get_absM, hg, hl, hlv, Err.ignorable]
         | false =>
-          simp only [Bool.false_eq_true, if_false, sstep, get_abs, hg, hc]
-          rw [abs_put, absEnt_new]; rfl
-  | update sys id v setName setTags =>
-    cases hg : s.get id with
-    | none => rw [step_update_missing hg]; simp [sstep, get_abs, hg]
+          simp only [Bool.false_eq_true, if_false]
+          have := createOn_refines s sys id v (some lvl) e0
+          cases he : (createOn s sys id v (some lvl) e0).err with
+          | none =>
+            rw [he] at this; simp only at this
+            simp only [sstep, abs_ents, get_absM, hg, Option.map_some, hl, hlv, hi, Bool.false_eq_true, if_false]
+            rw [← abs_ents, this.1, this.2]; rfl
+          | some e =>
+            rw [he] at this; simp only at this
+            simp only [sstep, abs_ents, get_absM, hg, Option.map_some, hl, hlv, hi, Bool.false_eq_true, if_false]
+            rw [← abs_ents, this.1, this.2]; rfl
+      | none =>
+        rw [step_ccreate_new hg]
+        have := createOn_refines s sys id v (some lvl) (blankEnt v.name)
+        rw [blankEnt_isSystem, Bool.false_or] at this
+        cases he : (createOn s sys id v (some lvl) (blankEnt v.name)).err with
+        | none =>
+          rw [he] at this; simp only at this
+          simp only [sstep, abs_ents, get_absM, hg, Option.map_none, Bool.false_eq_true, if_false]
+          rw [← abs_ents, this.1, this.2]; rfl
+        | some e =>
+          rw [he] at this; simp only at this
+          simp only [sstep, abs_ents, get_absM, hg, Option.map_none, Bool.false_eq_true, if_false]
+          rw [← abs_ents, this.1, this.2]; rfl
+  | update sys id v sn st so =>
+    cases hg : s.ents.get id with
+    | none => rw [step_update_missing hg]; simp [sstep, abs_ents, get_absM, hg, Err.ignorable]
     | some e =>
       rw [step_update_found hg]
-      have hi : (absEnt e).isSys = e.isSystem := rfl
-      cases hc : (e.isSystem && !sys) with
-      | true => simp [sstep, get_abs, hg, hi, hc]
-      | false =>
-        simp only [Bool.false_eq_true, if_false, sstep, get_abs, hg, Option.map_some, hi, hc]
-        rw [abs_put, absEnt_update]; rfl
-  | delete sys id =>
-    cases hg : s.get id with
-    | none => rw [step_delete_missing hg]; simp [sstep, get_abs, hg]
+      have := updateOn_refines hg sys v sn st so none
+      simp only [sstep, abs_ents, get_absM, hg, Option.map_some]
+      exact this
+  | cupdate sys id v sn st so sl lvl =>
+    cases hg : s.ents.get id with
+    | none => rw [step_cupdate_missing hg]; simp [sstep, abs_ents, get_absM, hg, Err.ignorable]
     | some e =>
-      rw [step_delete_found hg]
-      have hi : (absEnt e).isSys = e.isSystem := rfl
-      cases hc : (e.isSystem && !sys) with
-      | true => simp [sstep, get_abs, hg, hi, hc]
-      | false => simp only [Bool.false_eq_true, if_false, sstep, get_abs, hg, Option.map_some, hi, hc]; rw [abs_del]
+      rw [step_cupdate_found hg]
+      have hl : (absEnt e).level = e.level := rfl
+      cases hlv : e.level.isNone with
+      | true => simp [sstep, abs_ents, get_absM, hg, hl, hlv, Err.ignorable]
+      | false =>
+        have := updateOn_refines hg sys v sn st so (some (sl, lvl))
+        have hs : specLvl (some (sl, lvl)) = if sl then some lvl else none := by cases sl <;> rfl
+        rw [hs] at this
+        simp only [sstep, abs_ents, get_absM, hg, Option.map_some, hl, hlv, Bool.false_eq_true, if_false]
+        exact this
+  | delete sys id => rw [step_delete]; exact deleteOne_refines s sys id
+  | cdelete sys id => rw [step_cdelete]; exact deleteOne_refines s sys id
+  | ocreate id blank =>
+    rw [step_ocreate]
+    cases blank with
+    | true => simp [sstep, Err.ignorable]
+    | false =>
+      by_cases ho : id ∈ s.owners
+      · simp [sstep, abs_owners, ho, Err.ignorable]
+      · simp [sstep, abs_owners, ho, abs]
+  | odelete sys o =>
+    by_cases ho : o ∈ s.owners
+    · rw [step_odelete_found ho]
+      have hd := sdeleteAll_abs s sys (srefs (abs s) o)
+      rw [← srefs_abs] at hd
+      simp only [sstep, abs_owners, ho, if_true, hd]
+      cases ha : (refs s o).any (fun y => refused s y sys) with
+      | true => simp [Err.ignorable]
+      | false =>
+        simp only [Bool.false_eq_true, if_false]
+        simp only [abs, absM_unlinkAll]
+    · rw [step_odelete_missing ho]; simp [sstep, abs_owners, ho, Err.ignorable]
+  | deleteWhere sys q =>
+    rw [step_deleteWhere]
+    have hd := sdeleteAll_abs s sys (smatching (abs s) q)
+    rw [← smatching_abs s hw] at hd
+    simp only [sstep, hd]
+    cases ha : (matching s q).any (fun y => refused s y sys) with
+    | true => simp [Err.ignorable]
+    | false => simp only [Bool.false_eq_true, if_false]
+  | link sid oid =>
+    cases hg : s.ents.get sid with
+    | none => rw [step_link_missing hg]; simp [sstep, abs_ents, get_absM, hg, Err.ignorable]
+    | some e =>
+      rw [step_link_found hg]
+      by_cases ho : oid ∈ s.owners
+      · simp only [ho, if_true, sstep, abs_ents, get_absM, hg, Option.map_some, abs_owners]
+        rw [abs_putEnt]; rfl
+      · simp [ho, sstep, abs_ents, get_absM, hg, abs_owners, Err.ignorable]
+  | unlink sid oid =>
+    cases hg : s.ents.get sid with
+    | none => rw [step_unlink_missing hg]; simp [sstep, abs_ents, get_absM, hg, Err.ignorable]
+    | some e =>
+      rw [step_unlink_found hg]
+      simp only [sstep, abs_ents, get_absM, hg, Option.map_some]
+      rw [abs_putEnt]; rfl
   | read id => simp [step, sstep]
 
 end
